@@ -121,6 +121,128 @@ def newline_action(stmt):
     bad(stmt, "statement in logical_newline")
 
 
+# ---------------------------------------------------------------- one_space_line
+CATS = {"BLANK": "BLANK", "CPP_DIRECTIVE": "CPPD", "SRC_NONBLANK": "SRC"}
+BCONDS = {
+    "not c.isspace()": "BNotSpaceArg",
+    "not self.trailing_space": "BNotTrailing",
+    "other.parts": "BOtherNonempty",
+    "other.parts[0] == ' ' and self.trailing_space": "BOtherHeadSpAndTrailing",
+    "not self.parts": "BNoParts",
+    "len(self.parts) == 1": "BLen1",
+    "self.parts[0] == ' '": "(BHeadIs \" \"%char)",
+    "self.parts[0] == '#'": "(BHeadIs \"#\"%char)",
+    "self.parts[:2] == [' ', '#'] or self.parts[0] == '#'": "BDirPrefix",
+}
+BSTMTS = {
+    "self.parts.append(c)": "BAppendArg",
+    "self.parts.append(' ')": "BAppendSp",
+    "self.trailing_space = False": "(BSetTrailing false)",
+    "self.trailing_space = True": "(BSetTrailing true)",
+    "self.parts += other.parts[1:]": "BExtendTail",
+    "self.parts += other.parts[:]": "BExtendAll",
+    "self.trailing_space = other.trailing_space": "BTrailingOther",
+}
+
+
+def buf_stmt(stmt):
+    if isinstance(stmt, ast.If):
+        c = ast.unparse(stmt.test)
+        if c not in BCONDS:
+            bad(stmt.test, "condition in one_space_line")
+        return f"BIf {BCONDS[c]} {buf_block(stmt.body)} {buf_block(stmt.orelse)}"
+    src = ast.unparse(stmt)
+    if src in BSTMTS:
+        return BSTMTS[src].strip("()") if not BSTMTS[src].startswith("(") else BSTMTS[src][1:-1]
+    if isinstance(stmt, ast.Assign) and ast.unparse(stmt.targets[0]) == "res" and isinstance(stmt.value, ast.Constant) \
+            and stmt.value.value in CATS:
+        return f"BSetRes {CATS[stmt.value.value]}"
+    bad(stmt, "statement in one_space_line")
+
+
+def buf_block(stmts):
+    return "[" + "; ".join(buf_stmt(s) for s in stmts) + "]"
+
+
+def strip_doc(body):
+    return [s for s in body if not (isinstance(s, ast.Expr) and isinstance(s.value, ast.Constant))]
+
+
+def gen_buffer(tree):
+    cls = [n for n in tree.body if isinstance(n, ast.ClassDef) and n.name == "one_space_line"]
+    if len(cls) != 1:
+        raise Unexpected("class one_space_line not found exactly once")
+    meth = {n.name: n for n in cls[0].body if isinstance(n, ast.FunctionDef)}
+    init = [ast.unparse(s) for s in strip_doc(meth["__init__"].body)]
+    if init != ["self.parts = []", "self.trailing_space = False"]:
+        raise Unexpected(f"one_space_line.__init__ changed: {init}")
+    out = []
+    for name, args in (("append_char", ["self", "c"]), ("append_space", ["self"]), ("append_nonspace", ["self", "c"]),
+                       ("join", ["self", "other"]), ("category", ["self"])):
+        f = meth[name]
+        if [a.arg for a in f.args.args] != args:
+            bad(f, "signature in one_space_line")
+        body = strip_doc(f.body)
+        if name == "category":
+            if not (isinstance(body[-1], ast.Return) and ast.unparse(body[-1]) == "return res"):
+                bad(body[-1], "category must end in `return res`")
+            body = body[:-1]
+        out.append(f"Definition prog_{name} : list bstmt :=\n  {buf_block(body)}.")
+    return out
+
+
+# ---------------------------------------------------------------- the physical-line loop of c_file_source
+LOOP_PRELUDE = [
+    "current_physical_line.__init__()",
+    "end = len(line)",
+    "if line[-1] == '\\n':\n    end -= 1\nelif end > 0 and line[end - 1] == '\\\\':\n    raise RuntimeError('file seems to end in \\\\ with no newline!')",
+    "continued = end > 0 and line[end - 1] == '\\\\'",
+    "if continued:\n    end -= 1",
+]
+ENDS_LOGICAL = "not continued and cleaner.state[-1] != 'IN_BLOCK_COMMENT'"
+LOOP_STEPS = {
+    "cleaner.process(it.islice(line, 0, end))": "LProcess",
+    "cleaner.logical_newline()": "LNewline",
+    "curr_line.add_physical_line(physical_line_num)": "LAddLine",
+    "curr_line.join(current_physical_line)": "LJoin",
+}
+CLOSE_BODY = ["curr_line.physical_update(physical_line_num + 1)",
+              "if curr_line.category != 'BLANK':\n    yield curr_line",
+              "total_sloc += curr_line.physical_reset()"]
+LOOP_GUARDS = {ENDS_LOGICAL: "GEndsLogical", "not current_physical_line.category() == 'BLANK'": "GPhysNotBlank"}
+
+
+def gen_loop(tree):
+    fn = [n for n in tree.body if isinstance(n, ast.FunctionDef) and n.name == "c_file_source"]
+    if len(fn) != 1:
+        raise Unexpected("c_file_source not found exactly once")
+    loops = [s for s in fn[0].body if isinstance(s, ast.For)]
+    if len(loops) != 1 or ast.unparse(loops[0].target) != "(physical_line_num, line)" \
+            or ast.unparse(loops[0].iter) != "enumerate(fp, start=1)" or loops[0].orelse:
+        raise Unexpected("physical-line loop of c_file_source changed")
+    body = loops[0].body
+    pre = [ast.unparse(s) for s in body[:len(LOOP_PRELUDE)]]
+    if pre != LOOP_PRELUDE:
+        raise Unexpected(f"prelude of the physical-line loop changed: {pre}")
+    rows = ["(GAlways, LResetPhys)"]
+    for stmt in body[len(LOOP_PRELUDE):]:
+        src = ast.unparse(stmt)
+        if src in LOOP_STEPS:
+            rows.append(f"(GAlways, {LOOP_STEPS[src]})")
+            continue
+        if isinstance(stmt, ast.If) and not stmt.orelse and ast.unparse(stmt.test) in LOOP_GUARDS:
+            g = LOOP_GUARDS[ast.unparse(stmt.test)]
+            inner = [ast.unparse(x) for x in stmt.body]
+            if inner == CLOSE_BODY:
+                rows.append(f"({g}, LClose)")
+                continue
+            if len(inner) == 1 and inner[0] in LOOP_STEPS:
+                rows.append(f"({g}, {LOOP_STEPS[inner[0]]})")
+                continue
+        bad(stmt, "statement in the physical-line loop")
+    return "Definition loop_table : list (lguard * lact) :=\n  [" + "; ".join(rows) + "]."
+
+
 def coq_list(items, indent):
     if not items:
         return "[]"
@@ -176,7 +298,7 @@ def generate(repo: Path):
             bad(br[0], "else branch in logical_newline")
         nrows.append(f"({state_test(test, 'self.')}, {coq_list([newline_action(s) for s in br], 0)})")
     text = "\n".join([
-        "From Coq Require Import List.",
+        "From Coq Require Import Ascii List.",
         "From CBI Require Import Model.C05 Model.C05g.",
         "Import ListNotations.",
         "",
@@ -187,6 +309,12 @@ def generate(repo: Path):
         "(* c_cleaner.logical_newline: self.state[-1] -> statements *)",
         "Definition newline_table : list (mode * list naction) :=",
         "  " + coq_list(nrows, 2) + ".",
+        "",
+        "(* one_space_line: append_char, append_space, append_nonspace, join, category *)",
+        *gen_buffer(tree),
+        "",
+        "(* c_file_source: the guarded steps of the loop over physical lines (after the end/continued prelude) *)",
+        gen_loop(tree),
         ""])
     return {"C05_tables.v": text}
 
